@@ -210,6 +210,32 @@ ADDED2 = {
     "C17": "Later additions: registry-with-port image names and a tag given without an image.",
     "C18": "The string alphabet also holds / * # U+2028 U+0085 (comment openers, preprocessor, Unicode line boundaries).",
 }
+ADDED3 = {
+    "C01": "Also: First() of a sequence whose elements are sequences, under every consumer; the generated algorithm object lives in storage pre-filled with a loud pattern, "
+           "so a branch variable read before it is written is seen.",
+    "C02": "Also: all orders of the three backends translated in ONE process, with a self-consistency oracle (every $DIR/<file> the entry script uses is a file of the "
+           "package, the algorithm class is the backend's); a declared tree_type at every nesting depth.",
+    "C03": "Also: const-qualified by-value return types, tree names that are not identifiers.",
+    "C04": "Also: Range with computed bounds that come out negative / reversed, bool constants in and / or chains, chained comparisons as guards (refusal allowed, laziness "
+           "demanded if accepted).",
+    "C07": "Also the events wrfail(i, q) - the passes succeed, the write hits an I/O error - and menu queries that call a documented math function plainly, bring their own "
+           "function of that name, or are nested deeper than the interpreter's recursion limit (the limit is part of the canonical state).",
+    "C08": "Also: lambda parameters named like things the query declares (namespace, enum, function), and the captured-constant programs of C18 through the qastle wire.",
+    "C09": "Also: Aggregate with a third / fourth argument, collection declarations for every other backend (incl. the other CMS tier).",
+    "C10": "Also: data members (no call) declared with a deref count behind every object indirection; class-template types spelled with blanks next to < > ,.",
+    "C11": "Also: collections of pointers to objects, includes judged on the whole translation unit next to inject_code blocks naming the same file.",
+    "C12": "Also: arguments on the edge of a function's domain (log(0), sqrt(-4), exp(1000): the job goes on and writes -inf / nan / inf), a declared method named like a "
+           "documented function next to the plain call, and no value-changing compiler flag in any build file of the package.",
+    "C13": "Also: doubled unary operators, update lambdas wider than seed and elements, every two-operator expression on two operand-kind triples in the quick tier.",
+    "C14": "Also: metadata of another kind under the block's name, content-less same-name blocks, unknown fields holding an empty list.",
+    "C15": "Also: scripts that are prefixes / extensions of one another and the empty script (a second exhaustive space over two names), non-ASCII lines.",
+    "C16": "Also: the script started through a relative path and as an argument of bash; URL inputs.",
+    "C17": "Also: symlinked inputs, three and four docker blocks with the wanted image at both ends, chatty containers (200 000 characters before success / failure).",
+    "C18": "Also: numbers held in ONE constant node (what func_adl makes of a captured python variable), -0.0 by bit pattern, '?', two bank names in one query; string "
+           "positions on all three backends in the quick tier.",
+}
+for _k, _v in ADDED3.items():
+    ADDED2[_k] = (ADDED2.get(_k, "") + " " + _v).strip()
 for _k, _v in ADDED2.items():
     ADDED[_k] = (ADDED.get(_k, "") + " " + _v).strip()
 for _k, _v in ADDED.items():
